@@ -36,6 +36,7 @@ Definition crScreenSwitch := 3.
    these mark operations on which the span buffer is known to differ. *)
 Definition trSecondHalf := 1.   (* operation starts on a continuation cell *)
 Definition trWideOnNarrow := 2. (* glyph wider than the screen *)
+Definition trLockedRead := 4.   (* API call while the loop waits inside an escape sequence, lock held *)
 
 Record screen := mkScreen {
   rows : list (list cell);
@@ -97,14 +98,16 @@ Definition overwrite (st : style) (x : Z) (new : list cell) (row : list cell) : 
   let r := cont_run row (x + n) in
   zfirstn b row ++ zrepeat (blank st) (x - b) ++ new ++ zrepeat (blank st) r ++ zskipn (x + n + r) row.
 
-(* Delete cells [x, x+n), shift the rest left, fill the tail with blanks. *)
+Definition unglyph (c : cell) : cell := mkCell [32] 1 (cst c).
+
+(* Delete cells [x, x+n), shift the rest left, fill the tail with blanks; the
+   remaining halves of glyphs cut by the deletion become blanks in their own style. *)
 Definition delete_cells (st : style) (x n : Z) (row : list cell) : list cell :=
   let b := left_edge row x in
   let r := cont_run row (x + n) in
-  zfirstn b row ++ zrepeat (blank st) (x - b) ++ zrepeat (blank st) r ++ zskipn (x + n + r) row
+  zfirstn b row ++ map unglyph (zfirstn (x - b) (zskipn b row))
+    ++ map unglyph (zfirstn r (zskipn (x + n) row)) ++ zskipn (x + n + r) row
     ++ zrepeat (blank st) n.
-
-Definition unglyph (c : cell) : cell := mkCell [32] 1 (cst c).
 
 (* Fit a row to width w: cut (blanking a glyph that straddles the cut, keeping
    its style) or pad with blanks in style st. *)
